@@ -850,6 +850,42 @@ def rule_t10(repo, col):
                "instead of returning the term '-'(\"abc\") or a ParseError" % (operand, bad[0] if bad else ""), construct="build_unop: sign folded into a non-numeric constant", function="PrologFactory.build_unop")
 
 
+def rule_t11(repo, col):
+    """tokenizer: the characters that START an identifier beyond ASCII (_token_action: char.islower() / char.isupper()) are accepted as identifier CONTINUATION by the same
+    predicates (is_lower / is_upper are the Unicode-aware str methods): otherwise an identifier that the dispatcher starts on 'é' stops at the next 'é'"""
+    PARSER = "problog.parser"
+    ta = None
+    for f in repo.all_functions():
+        if f.module.name == PARSER and f.name == "_token_action":
+            ta = f
+    if ta is None:
+        raise AnalysisError("_token_action missing")
+    m = ta.module
+    starts = sorted({x.func.attr for x in ast.walk(ta.node) if isinstance(x, ast.Call) and isinstance(x.func, ast.Attribute) and x.func.attr in ("islower", "isupper", "isalpha")})
+    if not starts:
+        col.ok("T11", m, ta.node, "identifiers start on ASCII letters only", function=ta.qualname)
+        return
+    n = 0
+    for nm, meth in (("is_lower", "islower"), ("is_upper", "isupper")):
+        f = m.functions.get(nm)
+        if f is None:
+            raise AnalysisError("parser.%s missing" % nm)
+        rets = [r.value for r in walk_no_nested(f.node) if isinstance(r, ast.Return) and r.value is not None]
+        if len(rets) != 1:
+            raise AnalysisError("parser.%s: single return expected" % nm)
+        v = rets[0]
+        unicode_aware = isinstance(v, ast.Call) and isinstance(v.func, ast.Attribute) and v.func.attr == meth and norm(v.func.value) == f.params[0]
+        ascii_only = isinstance(v, ast.Compare) and all(isinstance(x, ast.Constant) and isinstance(x.value, str) and len(x.value) == 1 for x in [v.left] + v.comparators if not isinstance(x, ast.Name))
+        if not unicode_aware and not ascii_only:
+            raise AnalysisError("parser.%s: character class not understood: %s" % (nm, norm(v)))
+        n += 1
+        col.decide("T11", m, f.node, unicode_aware, "%s accepts every letter that _token_action lets start an identifier" % nm,
+                   "parser.%s is %s while _token_action starts an identifier on any character for which char.%s() holds: a name such as caf\u00e9 or stra\u00dfe is cut at its first "
+                   "non-ASCII letter, so text that the printer produced is rejected (or silently split: not\u00df reads as `not \u00df`)" % (nm, norm(v), meth),
+                   construct="parser.%s: ASCII-only continuation class" % nm, function=nm)
+    col.floor("T11.character_classes", n, 2)
+
+
 def run(repo, col):
     col.rule("T1", "dispatch-table coverage of the tokenizer")
     col.rule("T2", "guard before look-ahead index")
@@ -871,3 +907,5 @@ def run(repo, col):
     rule_t9(repo, col)
     col.rule("T10", "a prefix minus is folded into numeric literals only")
     rule_t10(repo, col)
+    col.rule("T11", "identifier start and continuation classes agree beyond ASCII")
+    rule_t11(repo, col)
